@@ -344,6 +344,7 @@ SHAPES = [
     Shape("d_pop2", "d k v", "d.pop(k, v)", ["u", T("dict", d="dict")], mut=True, group="dict"),
     Shape("d_contains", "d k", "k in d", ["u", T("dict", d="dict")], mut=True, group="dict"),
     Shape("d_getitem", "d k", "d[k]", ["u", T("dict", d="dict"), U("k"), T("dictk", ("k",), d="dict")], mut=True, group="dict"),
+    Shape("d_delitem", "d k", "del d[k]", ["u", T("dict", d="dict"), U("k"), T("dictk", ("k",), d="dict")], mut=True, stmt=True, group="dict"),
     Shape("d_keys", "d", "list(d.keys())", ["u", T("dict", d="dict")], mut=True, group="dict"),
     Shape("d_values", "d", "list(d.values())", ["u", T("dict", d="dict")], mut=True, group="dict"),
     Shape("d_items", "d", "list(d.items())", ["u", T("dict", d="dict")], mut=True, group="dict"),
